@@ -58,6 +58,7 @@ class OperationInfo:
             and self.op.properties == other.op.properties
             and self.op.operands == other.op.operands
             and self.op.result_types == other.op.result_types
+            and len(self.op.regions) == len(other.op.regions)
             and all(
                 s.is_structurally_equivalent(o)
                 for s, o in zip(self.op.regions, other.op.regions, strict=True)
